@@ -111,6 +111,7 @@ type OpResult struct {
 	Exit        bool     `json:"exit,omitempty"`
 	ExitCode    int      `json:"exit_code,omitempty"`
 	Budget      bool     `json:"budget,omitempty"`
+	Hang        string   `json:"hang,omitempty"`
 	Crash       bool     `json:"crash,omitempty"`
 	Fd1         BStr     `json:"fd1,omitempty"`
 	Fd2         BStr     `json:"fd2,omitempty"`
@@ -145,6 +146,7 @@ type InjectedErr struct{ ID int }
 func (e *InjectedErr) Error() string { return fmt.Sprintf("injected callee error #%d", e.ID) }
 
 type RunCtx struct {
+	b      *Built
 	sc     *Scenario
 	out    *Outcome
 	calls  []Call
@@ -213,13 +215,20 @@ func (c *RunCtx) callee(kind, who string, args []string) error {
 	if simrt.W != nil {
 		simrt.W.Event("callee %s %s fail=%d", kind, who, call.Fail)
 	}
+	// programs commonly call back into the parser from a command or callback
+	// (print the help, look up an option)
+	if c.sc.Decl != nil && c.sc.Decl.Reenter && c.b != nil && c.b.P != nil && (kind == "execute" || kind == "handler" || kind == "callback") {
+		var sink simrt.Sink
+		c.b.P.WriteHelp(&sink)
+		c.b.P.FindOptionByLongName("help")
+	}
 	c.calls = append(c.calls, call)
 	return err
 }
 
 func isSimPanic(r interface{}) bool {
 	switch r.(type) {
-	case simrt.ExitPanic, simrt.BudgetPanic, simrt.CrashPanic:
+	case simrt.ExitPanic, simrt.BudgetPanic, simrt.CrashPanic, simrt.HangPanic:
 		return true
 	}
 	return false
@@ -290,6 +299,7 @@ func Execute(sc *Scenario, sched *simrt.Schedule) (out *Outcome) {
 	simrt.Install(w)
 
 	b := Build(sc.Decl)
+	ctx.b = b
 	if b.Err != nil {
 		out.DeclErr = b.Err.Error()
 	}
@@ -304,6 +314,7 @@ func Execute(sc *Scenario, sched *simrt.Schedule) (out *Outcome) {
 			w.Exited = false
 			w.Ticks, w.TickBudget = 0, 1<<40
 			b = Build(sc.Decl)
+			ctx.b = b
 			if b.Err != nil {
 				out.DeclErr = b.Err.Error()
 			}
@@ -405,6 +416,9 @@ func runOp(w *simrt.World, b *Built, op *Op, res *OpResult) {
 				res.ExitCode = p.Code
 			case simrt.BudgetPanic:
 				res.Budget = true
+			case simrt.HangPanic:
+				res.Budget = true
+				res.Hang = p.Why
 			case simrt.CrashPanic:
 				res.Crash = true
 			default:
